@@ -2,7 +2,7 @@
    implementation's complete output for every list length of the explored range. *)
 From Coq Require Import Arith List Bool.
 From Coq Require Import Permutation.
-From OFV Require Import Base.Cplx Sem.PauliSem Model.QubitOp Model.Grouping Check.Schedules Thm.C18.Grouping.
+From OFV Require Import Base.Cplx Sem.PauliSem Model.QubitOp Model.Grouping Check.Schedules Thm.C18.Grouping Thm.C18.PairBetween.
 Import ListNotations.
 
 Theorem C18_pair_within_checker_sound : forall labels ps, pair_within_ok labels ps = true ->
@@ -31,3 +31,14 @@ Theorem C18_grouping_is_partition : forall (choose : nat -> list gkey -> list gk
   (forall k ms, In (k, ms) gs -> uniq k /\ forall tc, In tc ms -> sub (fst tc) k).
 Proof. exact grouping_is_partition. Qed.
 Print Assumptions C18_grouping_is_partition.
+
+(* [F] pair_between (index model, start_offset 0), EVERY pair of fragment lengths: every cross pair exactly
+   once over the whole schedule; inside one pairing no position is used twice *)
+Theorem C18_pair_between_each_pair_once : forall a b i j, 1 <= a -> 1 <= b -> i < a -> j < b ->
+  length (filter (peqb (i, j)) (concat (pb_all a b))) = 1.
+Proof. exact pair_between_each_pair_once. Qed.
+Print Assumptions C18_pair_between_each_pair_once.
+Theorem C18_pair_between_pairing_disjoint : forall a b k, 1 <= a -> 1 <= b ->
+  NoDup (map fst (pb_pairs a b k)) /\ NoDup (map snd (pb_pairs a b k)).
+Proof. exact pair_between_pairing_disjoint. Qed.
+Print Assumptions C18_pair_between_pairing_disjoint.
